@@ -1,4 +1,5 @@
 import GomlVerif.Lemmas.GoCompStepU
+import GomlVerif.Lemmas.MonoTy
 /-!
 The whole induction (`sim_all`) and the bridge from the decidable check `closedOK` to the facts the
 induction uses about the two programs (`Link`): where `findFn` / `findFunc` find the functions.
@@ -108,15 +109,36 @@ theorem checkFns_spec {env : Env} {file : AFile} {G : List String} : ∀ (l : Li
 
 theorem compileFn_name (env : Env) (st : St) (g : AFn) : (compileFn env st g).1.name = fnName g.name := rfl
 
+theorem valTyS_noParam {S E : List String} : ∀ {t : Ty}, valTyS S E t = true → tyContainsTypeParam t = false
+  | .ref e, h => by simp only [valTyS] at h; simp only [tyContainsTypeParam]; exact valTyS_noParam h
+  | .unit, _ | .bool, _ | .string, _ | .int _ _, _ | .struct _, _ | .enum _, _ => by simp [tyContainsTypeParam]
+  | .float _, h | .tuple _, h | .dyn _, h | .app _ _, h | .array _ _, h | .vec _, h | .param _, h | .func _ _, h
+  | .tvar _, h => by simp [valTyS, scalarTy] at h
+
+/-- the helpers `make_ref_runtime` emits for a collected reference type -/
+theorem refRuntime_mem : ∀ (refs : List Ty) (e : Ty), Ty.ref e ∈ refs → tyContainsTypeParam e = false →
+    refFn (.ref e) e ∈ (GFile.mk (refRuntime refs)).funcs ∧ refGetFn (.ref e) e ∈ (GFile.mk (refRuntime refs)).funcs ∧
+      refSetFn (.ref e) e ∈ (GFile.mk (refRuntime refs)).funcs
+  | [], e, h, _ => by cases h
+  | t :: rest, e, h, hp => by
+    simp only [refRuntime]
+    rw [funcs_append]
+    rcases List.mem_cons.mp h with rfl | h
+    · refine ⟨List.mem_append_left _ ?_, List.mem_append_left _ ?_, List.mem_append_left _ ?_⟩ <;>
+        simp [hp, GFile.funcs]
+    · obtain ⟨h1, h2, h3⟩ := refRuntime_mem rest e h hp
+      exact ⟨List.mem_append_right _ h1, List.mem_append_right _ h2, List.mem_append_right _ h3⟩
+
 /-- the decidable check establishes everything the induction needs about the two programs -/
 theorem link_of_closed {env : Env} {file : AFile} {n : Nat} {G : List String} (h : closedOK env file n G = true)
     {P : Prog} (hP : P.fns = file.map AFn.toFn) : Link env file G P (goFilePreSt env file n).1 := by
   simp only [closedOK, fileOK, Bool.and_eq_true] at h
-  obtain ⟨⟨⟨⟨⟨⟨⟨hndF, hndS⟩, hnb⟩, hres⟩, hstr⟩, htab⟩, hetab⟩, hchk⟩ := h
+  obtain ⟨⟨⟨⟨⟨⟨⟨⟨hndF, hndS⟩, hnb⟩, hres⟩, hstr⟩, htab⟩, hetab⟩, hrtab⟩, hchk⟩ := h
   have hndF := of_decide_eq_true hndF
   have hndS := of_decide_eq_true hndS
   have hfuncs := funcs_goFilePre env file n
   refine ⟨⟨fun b g hb => ?_, fun r hr => ?_⟩, fun g hg _ => findFn_progOf hP hndS hg, fun g hg hG => ?_, fun b hb => ?_,
+    fun b hb => ?_, fun e he => ?_,
     ⟨hstr, fun n hn => List.all_eq_true.mp htab n hn, fun n hn => List.all_eq_true.mp hetab n hn⟩⟩
   · simp only [GFile.findFunc] at hb ⊢
     rw [hfuncs, List.find?_append, hb]; rfl
@@ -136,6 +158,37 @@ theorem link_of_closed {env : Env} {file : AFile} {n : Nat} {G : List String} (h
     have := List.all_eq_true.mp hnb f hf
     rw [e] at this
     have hc : builtinNames.contains b = true := List.contains_iff_mem.mpr hb
-    rw [hc] at this; exact absurd this (by decide)
+    rw [hc] at this; simp at this
+  · apply findFn_none hP
+    intro f hf e
+    have := List.all_eq_true.mp hnb f hf
+    rw [e] at this
+    have hc : refNames.contains b = true := List.contains_iff_mem.mpr hb
+    rw [hc] at this; simp at this
+  · -- the helpers and the cell struct of a reference type the file mentions
+    simp only [refTyOK, Bool.and_eq_true, List.any_eq_true] at he
+    obtain ⟨hval, x, hx, hbeq⟩ := he
+    have hxe : x = .ref e := ((Goml.Mono.tyBeq_iff _ _).mp hbeq).symm
+    subst hxe
+    have hnp : tyContainsTypeParam e = false := by
+      have : valTyS (goodStructs env) (goodEnums env) e = true := by simpa [valTy, valTyS] using hval
+      exact valTyS_noParam this
+    obtain ⟨m1, m2, m3⟩ := refRuntime_mem _ e hx hnp
+    have hmid : ∀ g, g ∈ (GFile.mk (refRuntime (collectRuntimeTypes file).refs)).funcs → g ∈ (goFilePreSt env file n).1.funcs := by
+      intro g hg
+      rw [hfuncs]
+      refine List.mem_append_right _ (List.mem_append_left _ ?_)
+      simp only [midFuncs]
+      exact List.mem_append_right _ (List.mem_append_left _ hg)
+    have hfind : ∀ g, g ∈ (goFilePreSt env file n).1.funcs → (goFilePreSt env file n).1.findFunc g.name = some g := by
+      intro g hg
+      have := find?_of_nodup (fun f : GFunc => f.name) _ hndF _ hg
+      simpa [GFile.findFunc] using this
+    have htb := List.all_eq_true.mp hrtab _ hx
+    simp only [refTableOK, hval, Bool.not_true, Bool.false_or] at htb
+    refine ⟨hfind _ (hmid _ m1), hfind _ (hmid _ m2), hfind _ (hmid _ m3), ?_⟩
+    cases hd : (goFilePreSt env file n).1.structFields (refStructName e) with
+    | none => rw [hd] at htb; cases htb
+    | some decl => rw [hd] at htb; exact ⟨decl, rfl, by simpa using htb⟩
 
 end Goml.GoComp
